@@ -2,6 +2,7 @@ package main
 
 import (
 	"fmt"
+	"net/url"
 	"regexp"
 	"strings"
 
@@ -198,7 +199,113 @@ func runC03(cfg *vh.Config) error {
 	}
 	res.Notes = append(res.Notes, fmt.Sprintf("fault documents the independent reader did not classify as must-reject (not judged): %d", disagree))
 
-	// ---- stream 4: hand-written boundary documents (exactness oracle via the reader needs a tree: these go to the model only)
+	// ---- stream 4: two members of one unexposed proto oneof (both non-null)
+	nSib := cfg.Scale(40, 600)
+	for i := 0; i < nSib; i++ {
+		t := pickTarget()
+		root := t.Env.Lookup(t.Env.Root)
+		var withSib []*codecgen.Prop
+		for _, p := range root.Props {
+			if len(p.Siblings) > 0 && len(p.Path) == 1 {
+				withSib = append(withSib, p)
+			}
+		}
+		if root.Class != "object" || len(withSib) < 2 {
+			continue
+		}
+		a := vh.Pick(r, withSib)
+		var partners []*codecgen.Prop
+		for _, p := range withSib {
+			for _, sib := range a.Siblings {
+				if p.Path[0] == sib {
+					partners = append(partners, p)
+				}
+			}
+		}
+		if len(partners) == 0 {
+			continue
+		}
+		b := vh.Pick(r, partners)
+		g := codecgen.NewGen(r, t.Env)
+		g.Canonical = true
+		tree := codecgen.Obj()
+		tree.Schema = root
+		tree.Add(a.JSON, g.Value(a.Ty, 2)).Add(b.JSON, g.Value(b.Ty, 2))
+		doc := []byte(tree.Print(nil))
+		o := decodeJSON(t, doc)
+		distinct.Add(t.Name + string(doc))
+		res.Count("proto-oneof-siblings")
+		res.Count("proto-oneof-siblings-outcome:" + o.Kind)
+		checkExact(t, tree, doc, o, "proto-oneof-siblings", "")
+		em.add(decCase(t, doc, o), "proto-oneof-siblings", map[string]any{"target": t.Env.Root, "json": short(doc)}, map[string]any{"kind": o.Kind, "err": o.Err})
+		em.caseNo++
+	}
+
+	// ---- stream 5: scalar values supplied as URL query parameters decode like the JSON document
+	nQuery := cfg.Scale(150, 3000)
+	for i := 0; i < nQuery; i++ {
+		t := pickTarget()
+		root := t.Env.Lookup(t.Env.Root)
+		if root.Class != "object" {
+			continue
+		}
+		g := codecgen.NewGen(r, t.Env)
+		g.Canonical = true
+		tree := codecgen.Obj()
+		tree.Schema = root
+		q := url.Values{}
+		var kinds []string
+		for _, p := range root.Props {
+			if !r.Chance(12) || len(p.Path) == 0 {
+				continue
+			}
+			switch {
+			case p.Ty.Class == "scalar" || p.Ty.Class == "enum":
+				v := g.Value(p.Ty, 1)
+				tree.Add(p.JSON, v)
+				q.Add(p.JSON, queryText(v))
+				kinds = append(kinds, tyLabel(p.Ty))
+			case p.Ty.Class == "array" && (p.Ty.Item.Class == "scalar" || p.Ty.Item.Class == "enum"):
+				arr := codecgen.Arr()
+				arr.Ty = p.Ty
+				for k := r.Range(1, 3); k > 0; k-- {
+					v := g.Value(p.Ty.Item, 1)
+					arr.Items = append(arr.Items, v)
+					q.Add(p.JSON, queryText(v))
+				}
+				tree.Add(p.JSON, arr)
+				kinds = append(kinds, "array of "+tyLabel(p.Ty.Item))
+			}
+		}
+		if len(q) == 0 {
+			continue
+		}
+		doc := []byte(tree.Print(nil))
+		oj := decodeJSON(t, doc)
+		oq := decodeQuery(t, q)
+		distinct.Add(t.Name + "q:" + q.Encode())
+		res.Count("query")
+		res.Count("query-outcome:" + oq.Kind)
+		input := map[string]any{"target": t.Env.Root, "query": q.Encode(), "json": short(doc)}
+		if oj.Kind == "ok" {
+			switch oq.Kind {
+			case "ok":
+				if a, b := codecgen.MsgTerm(oq.Msg), codecgen.MsgTerm(oj.Msg); a != b {
+					res.Fail(vh.Failure{Case: em.caseNo, Stream: "query", Sig: "C03 query parameters decode to a different message than the JSON document: " + queryCulprit(t, tree, q), Clause: "scalar values supplied as URL query parameters produce the same message as the canonical spelling", Input: input, Got: firstDiff(a, b)})
+				}
+			case "err":
+				res.Fail(vh.Failure{Case: em.caseNo, Stream: "query", Sig: "C03 query parameter rejected: " + queryCulprit(t, tree, q), Clause: "scalar values supplied as URL query parameters produce the same message as the canonical spelling", Input: input, Got: oq.Err})
+			case "panic":
+				res.Fail(vh.Failure{Case: em.caseNo, Stream: "query", Sig: "C03 QueryToProto panics in " + oq.Site, Clause: "decoding succeeds or is rejected with an error", Input: input, Got: oq.Panic})
+			}
+		}
+		if oq.Kind == "ok" {
+			res.Sample(map[string]any{"stream": "query", "query": q.Encode()}, 16)
+		}
+		em.caseNo++
+	}
+
+	// ---- stream 6: hand-written boundary documents (exactness oracle via the reader needs a tree: these go to the model only)
 	res.Evaluations = em.caseNo
 	res.Distinct = len(distinct) - 1
 	return em.finish(cfg)
@@ -309,4 +416,38 @@ func firstDiff(got, want string) string {
 		return s[lo:hi]
 	}
 	return fmt.Sprintf("variant: …%s… canonical: …%s…", cut(got), cut(want))
+}
+
+// queryText is the text of a scalar as a query parameter: the string content, or the literal.
+func queryText(v *codecgen.J) string {
+	switch v.K {
+	case "bool":
+		if v.B {
+			return "true"
+		}
+		return "false"
+	}
+	return v.S
+}
+
+// queryCulprit names the first single parameter that alone fails or differs.
+func queryCulprit(t *target, tree *codecgen.J, q url.Values) string {
+	for _, m := range tree.Members {
+		one := codecgen.Obj()
+		one.Schema = tree.Schema
+		one.Add(m.Key, m.Val)
+		oj := decodeJSON(t, []byte(one.Print(nil)))
+		oq := decodeQuery(t, url.Values{m.Key: q[m.Key]})
+		if oj.Kind == "ok" && (oq.Kind != "ok" || codecgen.MsgTerm(oq.Msg) != codecgen.MsgTerm(oj.Msg)) {
+			ty := m.Val.Ty
+			if ty == nil {
+				return m.Key
+			}
+			if ty.Class == "array" {
+				return "array of " + tyLabel(ty.Item)
+			}
+			return tyLabel(ty)
+		}
+	}
+	return "combination"
 }
